@@ -53,6 +53,9 @@ type Cfg struct {
 type HSpec struct {
 	Pattern string   `json:"pattern"`
 	Kinds   []string `json:"kinds"`
+	// Sub registers the handler on a sub-mux that was mounted (on the pattern's first token)
+	// before the handler is added to it.
+	Sub bool `json:"sub,omitempty"`
 }
 
 func (c Cfg) String() string { b, _ := json.Marshal(c); return string(b) }
@@ -94,7 +97,18 @@ func build(c Cfg) *res.Service {
 	if len(c.Split) == 0 {
 		s.Handle(">", kindOpts(c.Kinds)...)
 	}
+	mounts := map[string]*res.Mux{}
 	for _, h := range c.Split {
+		if t := strings.Split(h.Pattern, "."); h.Sub && len(t) >= 2 && t[0] != "*" && t[0][0] != '$' && mounts[t[0]] == nil {
+			mounts[t[0]] = res.NewMux("")
+			s.Mount(t[0], mounts[t[0]])
+		}
+	}
+	for _, h := range c.Split {
+		if t := strings.Split(h.Pattern, "."); h.Sub && len(t) >= 2 && mounts[t[0]] != nil {
+			mounts[t[0]].Handle(strings.Join(t[1:], "."), kindOpts(h.Kinds)...)
+			continue
+		}
 		s.Handle(h.Pattern, kindOpts(h.Kinds)...)
 	}
 	if c.Explicit {
@@ -112,9 +126,6 @@ func build(c Cfg) *res.Service {
 
 // expectedOwnership returns the owned patterns per the documentation.
 func expectedOwnership(c Cfg) (resources, access []string) {
-	if c.Explicit {
-		return c.Resources, c.Access
-	}
 	all := func() []string {
 		if c.Name == "" {
 			return []string{">"}
@@ -126,6 +137,15 @@ func expectedOwnership(c Cfg) (resources, access []string) {
 	}
 	if has(c.Kinds, "access") {
 		access = all()
+	}
+	if c.Explicit {
+		// a nil list means "use the default" for that kind
+		if c.Resources != nil {
+			resources = c.Resources
+		}
+		if c.Access != nil {
+			access = c.Access
+		}
 	}
 	return
 }
@@ -386,6 +406,13 @@ func genCfg() *rapid.Generator[Cfg] {
 			if c.Access == nil {
 				c.Access = []string{}
 			}
+			// explicit ownership for one kind only: nil selects the default for the other
+			switch rapid.IntRange(0, 7).Draw(t, "nillist") {
+			case 0:
+				c.Resources = nil
+			case 1:
+				c.Access = nil
+			}
 		}
 		all := []string{"get", "call", "auth", "new", "access"}
 		for _, k := range all {
@@ -407,6 +434,9 @@ func genCfg() *rapid.Generator[Cfg] {
 			for _, k := range c.Kinds {
 				i := rapid.IntRange(0, n-1).Draw(t, "at-"+k)
 				c.Split[i].Kinds = append(c.Split[i].Kinds, k)
+			}
+			for i := range c.Split {
+				c.Split[i].Sub = rapid.IntRange(0, 2).Draw(t, "sub") == 0
 			}
 		}
 		if rapid.IntRange(0, 5).Draw(t, "failsub") == 0 {
@@ -583,25 +613,35 @@ func TestRealNATS(t *testing.T) {
 			}
 
 			_ = sub.Unsubscribe()
-			// how many maximal owned patterns of this kind match the name
+			// how many maximal request subjects derived from the owned patterns match this
+			// subject (call/auth subjects of two patterns that are not nested can still overlap:
+			// a.* with a method and a.a.> - such a subject is legitimately delivered twice)
 			owned := wantRes
 			if w.typ == "access" {
 				owned = wantAcc
 			}
-			maximal := map[string]bool{}
+			var subjects []string
 			for _, p := range owned {
+				sp := w.typ + "." + p
+				if w.typ == "call" && !strings.HasSuffix(p, ">") {
+					sp += ".*"
+				}
+				subjects = append(subjects, sp)
+			}
+			maximal := map[string]bool{}
+			for _, p := range subjects {
 				covered := false
-				for _, q := range owned {
+				for _, q := range subjects {
 					if q != p && natsref.Covers(q, p) {
 						covered = true
 					}
 				}
-				if !covered && natsref.Matches(p, name) {
+				if !covered && natsref.Matches(p, subj) {
 					maximal[p] = true
 				}
 			}
 			if n < 1 || (len(maximal) == 1 && n != 1) {
-				evid.Violation(t, prop, "realnats", fmt.Sprintf("request %s under owned pattern %s (falls under %d maximal owned patterns) got %d responses on real NATS; config %s", subj, w.pat, len(maximal), n, c), c)
+				evid.Violation(t, prop, "realnats", fmt.Sprintf("request %s under owned pattern %s (matched by %d maximal request subjects of the owned patterns) got %d responses on real NATS; config %s", subj, w.pat, len(maximal), n, c), c)
 				break
 			}
 		}
